@@ -8,6 +8,10 @@
 -/
 import OpmVerif.Proofs.UdqParse
 import OpmVerif.Proofs.UdqEval
+import OpmVerif.Proofs.UdqFuel
+import OpmVerif.Proofs.UdqState
+import OpmVerif.Proofs.UdqType
+import OpmVerif.Proofs.UdqLex
 
 namespace OpmVerif.Props.C17
 open OpmVerif.Udq OpmVerif.Gen.UdqEnums
@@ -16,16 +20,32 @@ open OpmVerif.Udq OpmVerif.Gen.UdqEnums
 combinations: print any tree `e` of the documented grammar with the documented ranks
 (functions/parentheses/unary sign > `^` > `* /` > `+ -` > comparisons > union operators;
 `* / + -` left-associative; `^`, comparisons and union operators right-associative as the code
-has them; parentheses only where the ranks demand them) and `parse_set` returns exactly `e` and
-consumes every token — for every fuel from some bound on.
+has them; parentheses only where the ranks demand them) and the model of `parseUDQExpression`,
+run with its OWN fuel `fuelFor ts = 8 * ts.length + 8`, returns exactly `e`.
+(`NoErr`: no leaf of token type `error`, which `UDQASTNode::valid()` rejects.) -/
+theorem parse_render (e : Ast) (hw : WF e) (hn : NoErr e) : parse (render e) = .ast e :=
+  parse_render_valid e hw hn
 
-`_partial`: the full statement is `parse (render e) = .ast e` with the model's own fuel
-`fuelFor ts = 8 * ts.length + 8`; what is missing is the arithmetic lemma that this fuel is above
-the bound (`fuelFor (render e) ≥ f0`), i.e. fuel monotonicity + sufficiency.  The executable model
-is run with `fuelFor` in the correspondence and never reported `fuel` there. -/
-theorem parse_render_partial (e : Ast) (hw : WF e) :
-    ∃ f0, ∀ f, f0 ≤ f → parseSet f (render e) = .ok e [] :=
-  parseSet_render_ev e hw
+/-- The same one level below the validity test: `parse_set` on the printed tokens returns `e`
+and consumes every token, with the model's own fuel, for every well-formed tree. -/
+theorem parse_render_tokens (e : Ast) (hw : WF e) : parseTokens (render e) = .ok e [] :=
+  parseTokens_render e hw
+
+/-- Fuel monotonicity: more fuel never changes an answer of `parse_set`. -/
+theorem parser_fuel_monotone {n m : Nat} {ts : List Tok} {a : Ast} {rest : List Tok}
+    (h : parseSet n ts = .ok a rest) (hnm : n ≤ m) : parseSet m ts = .ok a rest :=
+  parseSet_mono h hnm
+
+/-- Parser totality (the C20-relevant statement for the UDQ parser after the end-of-input
+repair): on EVERY token list — well-formed or not, of any length — the parser terminates with its
+own fuel in one of the three outcomes of `parseUDQExpression`: a valid tree, "extra unhandled
+data", or "failed to parse" (a tree with an error node).  The out-of-fuel outcome is impossible,
+and the tokens left over are never more than the input (`parse_set` only moves forward). -/
+theorem parser_total (ts : List Tok) :
+    ((∃ a, parse ts = .ast a ∧ a.valid = true) ∨ parse ts = .extra ∨ parse ts = .invalid) ∧
+    parse ts ≠ .fuel ∧
+    (∃ a rest, parseTokens ts = .ok a rest ∧ rest.length ≤ ts.length) :=
+  ⟨parse_outcome ts, parse_ne_fuel ts, parseTokens_total ts⟩
 
 /-- The same inside any context: the rank-`lvl` parser applied to the rank-`lvl` print-out of `e`
 followed by arbitrary further tokens `rest` returns `e` and leaves exactly `rest`, provided `rest`
@@ -117,6 +137,81 @@ theorem assign_define_order {α : Type} (plus : Option α → Option α → Opti
    fun m qs vs => Hist.evalDefine_other plus fin m qs vs,
    fun q qs vs e => Hist.evalDefine_next_off plus fin q qs vs e⟩
 
+/-- `UDQState::add_define` / `add_assign` over ANY history of results (oldest first; any mix of
+quantities, kinds, well lists): the element stored for well/group `w` of quantity `key` is what the
+LAST result that mentions `(key, w)` says — its value if defined there, nothing if undefined there
+— and is what it was before the history if no result mentions it.  In particular no value
+survives the element becoming undefined later. -/
+theorem state_history {α : Type} (evs : List (String × Hist.RSet α)) (s s' : Hist.State α)
+    (h : s.run evs = some s') (k : Hist.Kind) (hk : k ≠ .scalar) (key w : String) :
+    s'.elem k key w = (match Hist.lastTouch k key w evs with | some v => v | none => s.elem k key w) :=
+  Hist.run_elem evs s s' h k hk key w
+
+/-- …and for field-level (scalar) quantities. -/
+theorem state_history_scalar {α : Type} (evs : List (String × Hist.RSet α)) (s s' : Hist.State α)
+    (h : s.run evs = some s') (key : String) :
+    s'.scalar key = (match Hist.lastTouchS key evs with | some v => v | none => s.scalar key) :=
+  Hist.run_scalar evs s s' h key
+
+/-- After any history the state holds EXACTLY the defined elements of the last evaluation `r` of
+`key` (other quantities may have been evaluated since): with each well/group named once in `r`
+and nothing outside these names stored for `key` before, `(w, x)` is stored iff `r` contains the
+defined element `(w, some x)`. -/
+theorem state_is_last_evaluation {α : Type} (pre post : List (String × Hist.RSet α)) (key : String)
+    (r : Hist.RSet α) (s0 s : Hist.State α) (hk : r.kind ≠ .scalar)
+    (hrun : s0.run (pre ++ (key, r) :: post) = some s)
+    (hpost : ∀ e ∈ post, ¬ (e.1 = key ∧ e.2.kind = r.kind))
+    (hnd : (r.vals.map (·.1)).Nodup)
+    (hold : ∀ w, w ∉ r.vals.map (·.1) → Hist.lastTouch r.kind key w pre = none ∧ s0.elem r.kind key w = none)
+    (w : String) (x : α) :
+    s.elem r.kind key w = some x ↔ (w, some x) ∈ r.vals :=
+  Hist.state_is_last_evaluation pre post key r s0 s hk hrun hpost hnd hold w x
+
+/-- `var_type` / static type check (`Model/UdqType.lean`: the typed parser computes the
+`UDQASTNode::var_type` of every node as `set_left` / `set_right` / `UDQ::coerce` do).
+(1) Whenever `parseUDQExpression` accepts a DEFINE for a target type, the tree is the one the
+untyped parser builds: the type computation never changes the tree.  (2) It terminates with the
+model's own fuel on every token list. -/
+theorem typed_parser_same_tree (target : VarT) (ts : List Tok) (a : Ast) (vt : VarT)
+    (h : parseTyped target ts = .ast a vt) : parse ts = .ast a :=
+  parseTyped_tree target ts a vt h
+
+theorem typed_parser_total (target : VarT) (ts : List Tok) : parseTyped target ts ≠ .fuel :=
+  parseTyped_ne_fuel target ts
+
+/-- The code as it is: the top node of a `* /` or `+ -` chain of three or more operands carries the
+coerced type of its LAST TWO operands only (`x`, `y` are the last and second-to-last operator
+entries of the `nodes` vector; `t0` the first operand's type, `prev` the rest) — so the static
+type check of `DEFINE FUX WOPR + 1 + 2` sees SCALAR and passes (finding `chain-type-check`). -/
+theorem chain_type_last_two (t0 : VarT) (x y : Head × Ast × VarT) (prev : TAcc) (v : VarT)
+    (h : buildT t0 (x :: y :: prev) = some v) : updateType x.2.2 y.2.2 = some v :=
+  OpmVerif.Udq.chain_type_last_two t0 x y prev v h
+
+/-- …in particular the first operand and all operands before the second-to-last are ignored. -/
+theorem chain_type_ignores_earlier (t0 t0' : VarT) (x y : Head × Ast × VarT) (prev prev' : TAcc) (v v' : VarT)
+    (h : buildT t0 (x :: y :: prev) = some v) (h' : buildT t0' (x :: y :: prev') = some v') : v = v' :=
+  OpmVerif.Udq.chain_type_ignores_earlier t0 t0' x y prev prev' v v' h h'
+
+/-- The candidate repair (`design.d/C17.chain-type.patch`: fold the chain from the left): the top
+type of a chain is the type of ANY restricted (well / group / segment / …) operand in it, wherever
+it stands. -/
+theorem fixed_chain_type (t0 : VarT) (acc : TAcc) (v : VarT) (h : buildFix t0 acc = some v)
+    (t : VarT) (ht : t = t0 ∨ t ∈ acc.map (·.2.2)) (hn : isNoMix t = true) : v = t :=
+  buildFix_restricted_wins t0 acc v h t ht hn
+
+/-- DEFINE record tokenisation (`Model/UdqLex.lean`: `quote_split`, `next_token`,
+`normalize_string_tokens`, `make_udq_tokens` of UDQDefine.cpp).  `next_token` always returns a
+non-empty prefix of the rest of the item, so the `while (offset < item.size())` loop terminates on
+every string … -/
+theorem next_token_progress (c : Char) (r : Lex.Str) :
+    Lex.nextToken (c :: r) ≠ [] ∧ ∃ rest, c :: r = Lex.nextToken (c :: r) ++ rest :=
+  Lex.nextToken_prefix c r
+
+/-- … and the raw tokens of an item concatenate to the item: no character is lost, duplicated or
+reordered by the splitting (numbers, names, operators, blanks), for every string. -/
+theorem define_tokens_concat (s : Lex.Str) : (Lex.rawTokens s.length s).flatten = s :=
+  Lex.item_tokens_concat s
+
 /-- `^` has the same set semantics as the arithmetic operators (cast + element-wise + undefined
 propagation), so `eval_elementwise`, `eval_broadcast` and `undefined_propagates` apply to it. -/
 theorem pow_is_elementwise {α : Type} (F : Fns α) (l r : USet α) : powSet F l r = arith F F.pow l r :=
@@ -147,6 +242,20 @@ example : parse (render sample) = .ast sample := by decide +kernel
 
 example : (render sample).length = 23 := by decide +kernel
 
+example : NoErr sample := by simp [sample, NoErr, num, op]
+
+/-- a malformed token list of the kind that used to run off the end: still one of the outcomes -/
+example : parse [lpTok, minusTok] = .invalid := by decide +kernel
+
+/-- definedness history: P1 defined, then undefined, P2 the other way round; the state holds the last -/
+example :
+    let r1 : Hist.RSet Nat := ⟨.well, [("P1", some 5), ("P2", none)]⟩
+    let r2 : Hist.RSet Nat := ⟨.well, [("P1", none), ("P2", some 7)]⟩
+    (match Hist.State.empty.run [("WUA", r1), ("FUX", ⟨.scalar, [("", some 1)]⟩), ("WUA", r2)] with
+     | some s => (s.elem .well "WUA" "P1", s.elem .well "WUA" "P2", s.scalar "FUX")
+     | none => (none, none, none)) = (none, some 7, some 1) := by
+  decide +kernel
+
 /-- the repaired precedence (F2): `2 ^ 3 * 4` is `(2 ^ 3) * 4` -/
 example : parse [⟨.number, .num 2, []⟩, ⟨.binary_op_pow, .str "^", []⟩, ⟨.number, .num 3, []⟩,
     ⟨.binary_op_mul, .str "*", []⟩, ⟨.number, .num 4, []⟩]
@@ -155,6 +264,28 @@ example : parse [⟨.number, .num 2, []⟩, ⟨.binary_op_pow, .str "^", []⟩, 
 
 /-- end of input inside `parse_factor` is a parse error -/
 example : parse [lpTok] = .invalid := by decide +kernel
+
+/-! static type check, as the code is: order dependent -/
+def wopr : Tok := ⟨.ecl_expr, .str "WOPR", []⟩
+def one : Tok := ⟨.number, .num 0x3ff0000000000000, []⟩
+def plusTok : Tok := ⟨.binary_op_add, .str "+", []⟩
+
+/-- `DEFINE FUX WOPR + 1` is rejected … -/
+example : parseTyped .field_var [wopr, plusTok, one] = .typeError := by decide +kernel
+/-- … `DEFINE FUX WOPR + 1 + 1` is accepted with type SCALAR … -/
+example : (match parseTyped .field_var [wopr, plusTok, one, plusTok, one] with
+    | .ast _ vt => vt == .scalar | _ => false) = true := by decide +kernel
+/-- … and the same tree written `(WOPR + 1) + 1` is rejected again. -/
+example : parseTyped .field_var [lpTok, wopr, plusTok, one, rpTok, plusTok, one] = .typeError := by decide +kernel
+example : buildFix .well_var [(op .binary_op_add "+", num 1, .scalar), (op .binary_op_add "+", num 1, .scalar)] = some .well_var := by
+  decide +kernel
+
+/-- `WOPR'P*'*1.5E-3-(2)` -/
+example : (match Lex.tokenize ["WOPR'P*'*1.5E-3-(2)".toList] with
+    | .ok ts => ts.map (fun t => String.ofList t.text) | _ => []) = ["WOPR", "*", "1.5E-3", "-", "(", "2", ")"] := by
+  decide +kernel
+/-- a table look-up without `]`: the code runs past the end of its token vector -/
+example : (match Lex.tokenize ["TU_FBHP[FOPR".toList] with | .pastEnd => true | _ => false) = true := by decide +kernel
 
 example : okRest 3 [⟨.binary_op_add, .str "+", []⟩] := by simp [okRest, allowed]; decide
 
